@@ -36,6 +36,9 @@ func (g *c07Gen) block(depth int, name string) string {
 	case 2:
 		return "<pre>" + g.tok() + "\n  " + g.tok() + "</pre>"
 	case 3:
+		if vx.Choose(name+"fig", 2) == 1 {
+			return `<figure><img src="f.png"><figcaption>` + g.tok() + `</figcaption></figure>`
+		}
 		return `<img src="i.png">`
 	case 4:
 		tag := []string{"ul", "ol"}[vx.Choose(name+"l", 2)]
